@@ -78,7 +78,7 @@ OPS: Dict[str, Any] = {
     "optimize": _d("optimize", how=st.sampled_from(["optimize", "slim", "minimize", "raise"])),
     "add_cons": _d("add_cons", name=st.integers(0, 3), rxns=st.lists(_k, min_size=1, max_size=2), coefs=st.lists(st.sampled_from([1, -1, 2]), min_size=2, max_size=2),
                    b=st.sampled_from([(None, 5), (-5, None), (0, 0), (1, 1), (-10, 10)])),
-    "add_var": _d("add_var", name=st.integers(0, 3), b=st.sampled_from([(0, None), (0, 10), (-5, 5), (None, None)]), kind=st.sampled_from(["continuous", "continuous", "binary"])),
+    "add_var": _d("add_var", name=st.integers(0, 3), b=st.sampled_from([(0, None), (0, 10), (-5, 5), (None, 3)]), kind=st.sampled_from(["continuous", "continuous", "binary"])),
     "remove_cons": _d("remove_cons", what=st.sampled_from(["con", "var"]), name=st.integers(0, 3)),
     "medium": _d("medium", entries=st.lists(st.tuples(_k, st.sampled_from([0, 1, 10, 1000, 2.5])), max_size=3, unique_by=lambda t: t[0])),
     "repair": _d("repair"),
@@ -89,7 +89,7 @@ OPS: Dict[str, Any] = {
     "from_string": _d("from_string", rxn=_k, lhs=st.lists(st.tuples(st.integers(0, N_MID - 1), st.sampled_from([1, 1, 2, 0.5])), max_size=2, unique_by=lambda t: t[0]),
                       rhs=st.lists(st.tuples(st.integers(0, N_MID - 1), st.sampled_from([1, 1, 3])), max_size=2, unique_by=lambda t: t[0]),
                       arrow=st.sampled_from(["-->", "<=>", "<--", "->", "<->"])),
-    "inplace_meta": _d("inplace_meta", kind=st.sampled_from(["r", "m", "g", "model"]), sel=_k, what=st.sampled_from(["notes", "annotation", "name", "compartments"]),
+    "inplace_meta": _d("inplace_meta", kind=st.sampled_from(["r", "m", "g", "model", "grp"]), sel=_k, what=st.sampled_from(["notes", "annotation", "name", "compartments", "ann_list", "ann_list"]),
                        key=st.sampled_from(["k1", "k2", "sbo"]), val=st.sampled_from(["v1", "v2", "SBO:0000627"])),
     "tolerance": _d("tolerance", value=st.sampled_from([1e-7, 1e-6, 1e-9])),
     "helper": _d("helper", which=st.sampled_from(["fix_objective", "fix_objective", "add_pfba", "add_moma", "add_room", "add_loopless", "add_lp_feasibility", "abs_expr"]),
@@ -136,6 +136,15 @@ def op_strategy(names: Optional[List[str]] = None, weights: Optional[Dict[str, i
 # ------------------------------------------------------------------------------------------
 # executor
 # ------------------------------------------------------------------------------------------
+def user_from_spec(model, spec):
+    """Tracking record for the user constraints that build_model created from spec['cons']."""
+    cons = {}
+    for c in spec.get("cons", []):
+        cons[c["name"]] = (float("-inf") if c["lb"] is None else c["lb"], float("inf") if c["ub"] is None else c["ub"],
+                           [(model.reactions.get_by_id(rid), k) for rid, k in c["coefs"].items()])
+    return {"vars": {}, "cons": cons, "opaque": False}
+
+
 def user_copy(user):
     return {"vars": dict(user["vars"]), "cons": dict(user["cons"]), "opaque": user["opaque"]}
 
@@ -666,15 +675,28 @@ class World:
                 m.compartments = {"c": op["val"]}
             elif op["what"] == "name":
                 m.name = op["val"]
+            elif op["what"] == "ann_list":
+                lists = [v for v in m.annotation.values() if isinstance(v, list)]
+                if not lists:
+                    m.annotation["listed"] = [op["val"]]
+                else:
+                    lists[0].append(op["val"])
             else:
                 getattr(m, op["what"])[op["key"]] = op["val"]
             return "ok"
-        dl = {"r": m.reactions, "m": m.metabolites, "g": m.genes}[op["kind"]]
+        dl = {"r": m.reactions, "m": m.metabolites, "g": m.genes, "grp": m.groups}[op["kind"]]
         if not len(dl):
             return "skipped:empty"
         x = self.pick(dl, op["sel"])
         if op["what"] == "name":
             x.name = op["val"]
+        elif op["what"] == "ann_list":
+            # edit a nested list value in place (annotations map a provider to an id or a list of ids)
+            lists = [v for v in x.annotation.values() if isinstance(v, list)]
+            if not lists:
+                x.annotation["listed"] = [op["val"]]
+            else:
+                lists[0].append(op["val"])
         else:
             getattr(x, op["what"])[op["key"]] = op["val"]
 
